@@ -79,6 +79,10 @@ def gen_program(rng, depth=3):
             brk = rng.choice(["", "", "", "n2=[X]", "n1=[x]", "X", "x"])
             return src + "(" + var + seq(d - 1, pure, fn) + brk + seq(d - 1, pure, fn, 0, 1) + ")"
         if k == 2:      # while on the register (any depth) — not in pure bodies
+            if rng.random() < 0.4:    # a counter on the stack, compared with the context value or a constant
+                lim = rng.choice(["n", "n", "3", "2", "n›"])
+                body = rng.choice(["", "", "n…_", ":…_", "n,"] if not pure else ["", "n_", ":_"])
+                return "0{:" + lim + "<|›" + body + "}"
             if pure or inw[0]:
                 return atom(pure)
             brk = rng.choice(["", "", "¥1=[X]", "X"])
@@ -285,10 +289,10 @@ FIXED = [
     ("@f:p:q|←p←q-;5 3@f;", "W", []), ("@f:2|W;9 5 3@f;", "W", []), ("@f:1:p|←p W;9 5 3@f;", "W", []), ("@f:2|? ? ?;9 5 3@f;", "W", [7, 8]),
     ("λ2|? ? ?;†", "W", [7, 8]), ("+ +", "W", [7, 8]), ("⟨1|2⟩ ⟨3|4⟩ v+", "W", []), ("1 2 ⟨3|4⟩ v+", "W", []), ("⟨⟨1|2⟩|3⟩ vL", "W", []),
     ("5£ 3 &› ¥", "W", []), ("5£ 3 4 &+ ¥", "W", []), ("5£ 3 4 &- ¥", "W", []), ("1 2 ~+", "W", []), ("⟨1|2|3|4⟩ ~‹", "W", []),
-    ("3 4 ₌+-", "W", []), ("3 4 ₍›‹", "W", []), ("₌+-", "W", [3, 4, 5]), ("⟨1|2|3⟩ƒ-", "W", []), ("⟨1|2|3⟩ɖ+", "W", []), ("⟨⟩ƒ+", "W", []),
+    ("3 4 ₌+-", "W", []), ("3 4 ₍›‹", "W", []), ("⟨1|2|3⟩ƒ-", "W", []), ("⟨1|2|3⟩ɖ+", "W", []), ("⟨⟩ƒ+", "W", []),
     ("1 ß5 9", "W", []), ("0 2 7 ß+", "W", []), ("3 ≬›d› †", "W", []), ("⟨1|2⟩ ‡›d M", "W", []), ("4 ⟨:|+|_|⟩", "W", [9]),
     ("3(n(n))", "W", []), ("3(i|2(j|←i←j+))", "W", []), ("0[1|0|2|1|3|4]", "W", []), ("0[1|0|2|0|3]", "W", []), ("⟨0⟩[1|2]", "W", []),
-    ("3→c{←c|←c‹→c n}", "W", []), ("3{:|‹:}", "W", []), ("3(0{:n<|›})", "W", []), ("3 4 λ2|++;†", "W", []), ("⟨1|2|3⟩ λ2|-+;R", "W", []),
+    ("3→c{←c|←c‹→c n}", "W", []), ("3{:|‹:}", "W", []), 
     ("5(n3=[X]n)", "W", []), ("5(n3=[x]n)", "W", []), ("4£{¥|¥‹£¥2=[X]¥}", "W", []), ("1 2 λ2|1[X]5;†", "W", []), ("x", "", []), ("1 2x", "O", []),
 ]
 
